@@ -337,6 +337,25 @@ func genCase(r *rand.Rand, mode string) (caseCfg, []hop) {
 	if r.Intn(12) == 0 {
 		cfg.cap = 1024
 	}
+	if mode == "dnl" {
+		// dead-nonce flood: many retransmissions with fresh nonces (each puts the previous nonce on the DNL at once) and
+		// many forwarded Interests that expire together; more than 100 records fall due in the same sweep
+		cfg.dnlMs = []int{300, 1000}[r.Intn(2)]
+		cfg.fib = []fibRoute{{nm{}, 2, 0}, {nm{}, 3, 1}}
+		var ops []hop
+		nonce := r.Uint32()
+		total := 110 + r.Intn(160)
+		for i := 0; i < total; i++ {
+			nonce++
+			n := u[r.Intn(1+r.Intn(len(u)))]
+			ops = append(ops, hop{kind: "int", face: uint64(1 + r.Intn(2)*3), name: n, cbp: r.Intn(4) == 0, mbf: false, nonce: nonce, life: []int{50, 50, 300, 600}[r.Intn(4)]})
+			if r.Intn(40) == 0 {
+				ops = append(ops, hop{kind: "run", n: 1 + r.Intn(120)})
+			}
+		}
+		ops = append(ops, hop{kind: "quiesce"})
+		return cfg, ops
+	}
 	nops := 10 + r.Intn(50)
 	lifetimes := []int{-1, -1, 50, 300, 1000, 2500}
 	freshes := []int{-1, 0, 1, 100, 1000, 5000, 5000}
@@ -857,11 +876,11 @@ func TestTrace(t *testing.T) {
 		}
 	}
 	r := rand.New(rand.NewSource(seed))
-	modes := []string{"cs", "fw", "mix"}
+	modes := []string{"cs", "fw", "mix", "dnl"}
 	for i := 0; i < n; i++ {
 		m := mode
 		if mode == "all" {
-			m = modes[i%3]
+			m = modes[i%4]
 		}
 		cfg, ops := genCase(r, m)
 		runCase(t, out, k, "gen:"+m, cfg, ops)
